@@ -471,7 +471,9 @@ PROPS = {
                                     + [W.gen_world_dup_path_resize(Rng(s, "c14-dup", i)) for i in range(40 if t == "quick" else 400)]
                                     + [W.gen_world_c14(Rng(s, "c14", i)) for i in range(400 if t == "quick" else 8000)]
                                     + resize_fault_worlds(t, s)),
-    "C15": dict(module="TB.Props.C15", theorems=["C15_sum", "C15_run", "C15_dedup"], clauses=["c15-", "c16-", "c02-"], worlds=lambda t, s: worlds_default(t, s, "c15", 300, 6000, tweak_threads),
+    "C15": dict(module="TB.Props.C15", theorems=["C15_sum", "C15_run", "C15_dedup"], clauses=["c15-", "c16-", "c02-"],
+                worlds=lambda t, s: worlds_default(t, s, "c15", 300, 6000, tweak_threads)
+                                    + [gen_fs_sched_world(Rng(s, "c15-fs", i), i) for i in range(60 if t == "quick" else 1200)],
                 runner=lambda ws: run_with_cli(ws, 60 if len(ws) <= 1000 else 600), with_bin=True),
     "C16": dict(module="TB.Props.C16", theorems=["C16_empty", "C16_validate", "C16_piece_total_partial"], clauses=["c16-", "c03-"],
                 worlds=lambda t, s: [W.gen_world_many_segments(Rng(s, "c16-segs", i), n) for i, n in enumerate([3000, 30000] if t == "quick" else [3000, 30000, 60000])]
